@@ -628,8 +628,8 @@ def c09_monitor(ctx, res, case, impl_line, model_line, spec):
             m = dict(suite=res.name, case=case, op_index=j + 1, what=what,
                      before=' '.join(before)[:600], after=' '.join(after)[:600], fresh_before=' '.join(fresh0)[:600], fresh=' '.join(fresh)[:600])
             kid = known_match(ctx, shape) if shape else None
-            if shape and ctx.prop not in ('C09', 'C10'):
-                return
+            if shape and ctx.prop != 'C09':
+                return   # recorded under C09 (finding F-C09-1); the purge itself is what C10 asks for
             if kid:
                 m['finding'] = kid; res.known_hits.append(m)
             else:
